@@ -56,6 +56,39 @@ pub fn build_doc(objs: &[(u64, Vec<u8>)], trailer_extra: &str) -> Vec<u8> {
     w.out
 }
 
+/// How a planted document is laid out in the file. The hostile content is the same; what changes is
+/// the coordinate system of every offset (junk before the `%PDF-` header: offsets in the file are
+/// relative to the header, positions in the buffer are not) and the storage of the objects.
+#[derive(Clone, Copy, Debug, PartialEq, Eq)]
+pub struct Variant {
+    /// number of junk bytes before the header (the library looks for the header in the first 1024 bytes)
+    pub prefix: usize,
+    /// plain objects stored in an object stream (cross-reference stream) instead of directly (classic table)
+    pub compressed: bool,
+}
+pub const PLAIN: Variant = Variant { prefix: 0, compressed: false };
+
+/// junk that contains no header, no keyword and no delimiter: letters, digits, blanks, line ends
+pub fn junk(len: usize) -> Vec<u8> {
+    let alphabet = b"junk 0123456789 abc\n";
+    let mut v: Vec<u8> = (0..len).map(|i| alphabet[(i * 7 + i / 5) % alphabet.len()]).collect();
+    if let Some(last) = v.last_mut() {
+        *last = b'\n';
+    }
+    v
+}
+
+/// the same, in any layout: bodies that are not streams may be stored in an object stream
+pub fn build_doc_as(objs: &[(u64, Vec<u8>)], trailer_extra: &str, v: Variant) -> Vec<u8> {
+    if v == PLAIN {
+        return build_doc(objs, trailer_extra);
+    }
+    let bodies: Vec<(u64, Body)> = objs.iter().map(|(id, b)| {
+        if b.windows(6).any(|w| w == b"stream") || b.contains(&b'{') { (*id, Body::Raw(b.clone())) } else { (*id, Body::Plain(String::from_utf8_lossy(b).into_owned())) }
+    }).collect();
+    Frag { name: "doc", objs: bodies, slots: vec![], trailer: trailer_extra.to_string() }.instantiate_as(&[], v).bytes
+}
+
 pub fn rf(id: u64) -> String {
     format!("{} 0 R", id)
 }
@@ -94,14 +127,24 @@ fn subst(t: &str, slots: &[Slot], choice: &[usize]) -> String {
 
 impl Frag {
     pub fn instantiate(&self, choice: &[usize]) -> Planted {
-        let mut w = PdfWriter::new(b"", "1.7");
+        self.instantiate_as(choice, PLAIN)
+    }
+
+    pub fn instantiate_as(&self, choice: &[usize], v: Variant) -> Planted {
+        let mut w = PdfWriter::new(&junk(v.prefix), "1.7");
         w.free(0, 0, 65535);
         let mut max = 0;
+        let mut members: Vec<(u64, Vec<u8>)> = vec![];
         for (id, body) in &self.objs {
             max = max.max(*id);
             match body {
                 Body::Plain(t) => {
-                    w.object(*id, 0, subst(t, &self.slots, choice).as_bytes());
+                    let text = subst(t, &self.slots, choice);
+                    if v.compressed {
+                        members.push((*id, text.into_bytes()));
+                    } else {
+                        w.object(*id, 0, text.as_bytes());
+                    }
                 }
                 Body::Raw(b) => {
                     w.object(*id, 0, b);
@@ -117,8 +160,18 @@ impl Frag {
             }
         }
         let trailer = subst(&self.trailer, &self.slots, choice);
-        w.finish(XrefFormat::Classic, max + 1, &trailer, &[], 0);
-        let desc = format!("{}[{}]", self.name, choice.iter().enumerate().map(|(k, c)| format!("{}={}", k, self.slots[k].options[*c])).collect::<Vec<_>>().join("; "));
+        if v.compressed {
+            // every plain object goes into one object stream; the table is a cross-reference stream
+            let stm = max + 1;
+            w.object_stream(stm, &members, StmFilter::None, b"\n", "");
+            w.finish(XrefFormat::Stream, max + 3, &trailer, &[], max + 2);
+        } else {
+            w.finish(XrefFormat::Classic, max + 1, &trailer, &[], 0);
+        }
+        let mut desc = format!("{}[{}]", self.name, choice.iter().enumerate().map(|(k, c)| format!("{}={}", k, self.slots[k].options[*c])).collect::<Vec<_>>().join("; "));
+        if v != PLAIN {
+            desc.push_str(&format!("|prefix={}|compressed={}", v.prefix, v.compressed));
+        }
         Planted { frag: self.name, desc, bytes: w.out }
     }
 
@@ -126,10 +179,10 @@ impl Frag {
         self.slots.iter().map(|s| s.default).collect()
     }
 
-    /// every combination of the non-numeric slots (numbers at their defaults) if there are at most
-    /// `limit` of them, otherwise `limit` random ones; then every numeric slot × every boundary value
-    /// (one at a time, the rest at default); then `joint` random joint assignments.
-    pub fn enumerate(&self, limit: usize, joint: usize, rng: &mut Rng) -> (Vec<Planted>, bool) {
+    /// every combination of the non-numeric, non-auxiliary slots (the others at their defaults) if there are
+    /// at most `limit` of them, otherwise `limit` random ones; then every numeric / auxiliary slot × every
+    /// option (one at a time, the rest at default); then `joint` random joint assignments.
+    pub fn choices(&self, limit: usize, joint: usize, rng: &mut Rng) -> (Vec<Vec<usize>>, bool) {
         let mut out = vec![];
         let idx: Vec<usize> = (0..self.slots.len()).filter(|k| !self.slots[*k].numeric && !self.slots[*k].aux).collect();
         let total: u128 = idx.iter().map(|k| self.slots[*k].options.len() as u128).product();
@@ -141,7 +194,7 @@ impl Frag {
                 for (j, k) in idx.iter().enumerate() {
                     c[*k] = counter[j];
                 }
-                out.push(self.instantiate(&c));
+                out.push(c.clone());
                 let mut j = 0;
                 loop {
                     if j == idx.len() {
@@ -159,13 +212,13 @@ impl Frag {
                 }
             }
         } else {
-            out.push(self.instantiate(&self.defaults()));
+            out.push(self.defaults());
             for _ in 0..limit {
                 let mut c = self.defaults();
                 for k in idx.iter() {
                     c[*k] = rng.usize(self.slots[*k].options.len());
                 }
-                out.push(self.instantiate(&c));
+                out.push(c);
             }
         }
         for k in 0..self.slots.len() {
@@ -174,16 +227,35 @@ impl Frag {
                     if o != self.slots[k].default {
                         let mut c = self.defaults();
                         c[k] = o;
-                        out.push(self.instantiate(&c));
+                        out.push(c);
                     }
                 }
             }
         }
         for _ in 0..joint {
-            let c: Vec<usize> = self.slots.iter().map(|s| rng.usize(s.options.len())).collect();
-            out.push(self.instantiate(&c));
+            out.push(self.slots.iter().map(|s| rng.usize(s.options.len())).collect());
         }
         (out, exhaustive)
+    }
+
+    /// the documents of `choices`, each in the plain layout; additionally every `every`-th choice (all of
+    /// them for `every = 1`) in one of `variants`, taken in turn
+    pub fn enumerate_with(&self, limit: usize, joint: usize, rng: &mut Rng, variants: &[Variant], every: usize) -> (Vec<Planted>, bool) {
+        let (choices, exhaustive) = self.choices(limit, joint, rng);
+        let mut out = Vec::with_capacity(choices.len() * 2);
+        let mut turn = 0usize;
+        for (i, c) in choices.iter().enumerate() {
+            out.push(self.instantiate(c));
+            if !variants.is_empty() && every > 0 && i % every == 0 {
+                out.push(self.instantiate_as(c, variants[turn % variants.len()]));
+                turn += 1;
+            }
+        }
+        (out, exhaustive)
+    }
+
+    pub fn enumerate(&self, limit: usize, joint: usize, rng: &mut Rng) -> (Vec<Planted>, bool) {
+        self.enumerate_with(limit, joint, rng, &[], 0)
     }
 }
 
@@ -235,9 +307,14 @@ fn catalog_with(extra: &str) -> Vec<(u64, Body)> {
 pub fn tree(k: usize, number: bool, two_kids_everywhere: bool) -> Frag {
     let t: Vec<u64> = (10..10 + k as u64).collect();
     let mut slots = vec![];
-    let mut objs = if number { catalog_with("/PageLabels {0}") } else { catalog_with("/Names << /Dests {0} >>") };
+    // slot 0: the root; slot 1 (auxiliary): the access path — which entry of the name dictionary (they are
+    // eight instances of the same generic loader with different value types)
+    let mut objs = if number { catalog_with("/PageLabels {0} {1}") } else { catalog_with("/Names << /{1} {0} >>") };
     objs.push((4, Body::Plain("<< >>".into())));
     slots.push(refs_slot(&t, 10));
+    let paths: Vec<String> = if number { vec![String::new(), "/Names << /Dests {0} >>".replace("{0}", &rf(10))] }
+        else { ["Dests", "AP", "JavaScript", "Pages", "Templates", "IDS", "URLS", "EmbeddedFiles"].iter().map(|s| s.to_string()).collect() };
+    slots.push(Slot { aux: true, ..choice_slot(paths, 0) });
     for (i, id) in t.iter().enumerate() {
         let leaf = if number {
             format!("<< /Nums [{} << /S /D /St 1 >> {} << /P (x) >>] /Limits [{} {}] >>", i, i + 7, i, i + 7)
@@ -299,10 +376,12 @@ pub fn outlines(k: usize) -> Frag {
 /// node, or a CID leaf; plus ToUnicode / FontDescriptor / FontFile references
 pub fn fonts(k: usize) -> Frag {
     let t: Vec<u64> = (10..10 + k as u64).collect();
-    let mut objs = catalog_with("");
+    // the font graph is reached through the page resources (lazy font), a graphics state (typed
+    // reference), and the AcroForm default resources
+    let mut objs = catalog_with("/AcroForm << /Fields [] /DR 4 0 R >>");
     let mut slots = vec![];
     slots.push(refs_slot(&t, 10));
-    objs.push((4, Body::Plain("<< /Font << /F1 {0} >> >>".into())));
+    objs.push((4, Body::Plain("<< /Font << /F1 {0} >> /ExtGState << /G0 << /Type /ExtGState /Font [{0} 12.0] >> >> >>".into())));
     for (i, id) in t.iter().enumerate() {
         let leaf = "<< /Type /Font /Subtype /CIDFontType2 /BaseFont /Leaf /CIDSystemInfo << /Registry (A) /Ordering (I) /Supplement 0 >> /FontDescriptor 20 0 R /DW 500.0 /W [1 [600.0 700.0] 10 12 800.0] /CIDToGIDMap /Identity >>".to_string();
         let simple = "<< /Type /Font /Subtype /TrueType /BaseFont /Simple /FirstChar 32 /LastChar 33 /Widths [500.0 600.0] /FontDescriptor 20 0 R /ToUnicode 21 0 R /Encoding << /Type /Encoding /Differences [32 /space /a] >> >>".to_string();
@@ -385,10 +464,12 @@ pub fn encoding_differences() -> Frag {
 /// pointed at every node
 pub fn colorspaces(k: usize) -> Frag {
     let t: Vec<u64> = (10..10 + k as u64).collect();
-    let mut objs = catalog_with("");
+    // reached through the page resources, through an image, and through the AcroForm default resources
+    let mut objs = catalog_with("/AcroForm << /Fields [] /DR 4 0 R >>");
     let mut slots = vec![];
     slots.push(refs_slot(&t, 10));
-    objs.push((4, Body::Plain("<< /ColorSpace << /C0 {0} >> >>".into())));
+    objs.push((4, Body::Plain("<< /ColorSpace << /C0 {0} >> /XObject << /X0 30 0 R >> >>".into())));
+    objs.push((30, Body::Stream("/Type /XObject /Subtype /Image /Width 1 /Height 1 /BitsPerComponent 8 /ColorSpace {0}".into(), None, vec![7u8])));
     for (i, id) in t.iter().enumerate() {
         let mut options = vec!["/DeviceRGB".to_string(), "[/CalRGB << /WhitePoint [1.0 1.0 1.0] >>]".to_string(), "[/ICCBased 20 0 R]".to_string()];
         for a in &t {
@@ -745,18 +826,115 @@ pub fn deep_chain(kind: &str, n: u64) -> Planted {
     Planted { frag: "deep-chain", desc: format!("deep-chain[{} n={}]", kind, n), bytes: build_doc(&objs, "/Root 1 0 R") }
 }
 
+/// the references of the trailer pointed at every kind of object
+pub fn trailer_refs() -> Frag {
+    let objs = vec![
+        (1, Body::Plain("<< /Type /Catalog /Pages 2 0 R >>".into())),
+        (2, Body::Plain("<< /Type /Pages /Kids [3 0 R] /Count 1 /MediaBox [0 0 10 10] >>".into())),
+        (3, Body::Plain("<< /Type /Page /Parent 2 0 R /Resources << >> /Contents 5 0 R >>".into())),
+        (5, Body::Stream(String::new(), None, b"q Q".to_vec())),
+        (6, Body::Plain("6 0 R".into())),
+        (7, Body::Plain("<< /Title (t) /Producer (p) /CreationDate (D:20200101000000Z) >>".into())),
+        (8, Body::Plain("[1 0 R]".into())),
+    ];
+    let t = [1u64, 2, 3, 5, 6, 7, 8, 9];
+    let slots = vec![refs_slot(&t, 1), opt_key_slot("Info", &t, Some(7)), opt_key_slot("Encrypt", &t, None), opt_key_slot("Prev", &t, None)];
+    Frag { name: "trailer-refs", objs, slots, trailer: "/Root {0} {1} {2} {3} /ID [(0123456789abcdef) (0123456789abcdef)]".into() }
+}
+
+/// A hostile construct as a kit that can be combined with another one in the same document: entries for
+/// the catalog, the page, the resources dictionary, and the kit's own objects.
+pub struct Kit {
+    pub name: &'static str,
+    pub catalog: String,
+    pub page: String,
+    pub resources: String,
+    pub objs: Vec<(u64, Vec<u8>)>,
+}
+
+pub fn kits() -> Vec<Kit> {
+    let f2 = "<< /FunctionType 2 /Domain [0.0 1.0] /N 1.0 >>";
+    let mut v = vec![
+        Kit { name: "cyclic-name-tree", catalog: "/Names << /Dests 110 0 R /EmbeddedFiles 110 0 R >>".into(), page: String::new(), resources: String::new(),
+            objs: vec![(110, b"<< /Kids [111 0 R] >>".to_vec()), (111, b"<< /Kids [110 0 R 111 0 R] >>".to_vec())] },
+        Kit { name: "cyclic-number-tree", catalog: "/PageLabels 120 0 R".into(), page: String::new(), resources: String::new(),
+            objs: vec![(120, b"<< /Kids [121 0 R] >>".to_vec()), (121, b"<< /Kids [120 0 R] >>".to_vec())] },
+        Kit { name: "self-reference", catalog: String::new(), page: "/CropBox 130 0 R /Rotate 130 0 R".into(), resources: "/Properties << /P0 131 0 R >>".into(),
+            objs: vec![(130, b"130 0 R".to_vec()), (131, b"132 0 R".to_vec()), (132, b"131 0 R".to_vec())] },
+        Kit { name: "font-cycle", catalog: String::new(), page: String::new(), resources: "/Font << /F9 140 0 R >>".into(),
+            objs: vec![(140, b"<< /Type /Font /Subtype /Type0 /BaseFont /C /Encoding /Identity-H /DescendantFonts [141 0 R] >>".to_vec()),
+                       (141, b"<< /Type /Font /Subtype /Type0 /BaseFont /C /Encoding /Identity-H /DescendantFonts [140 0 R] >>".to_vec())] },
+        Kit { name: "devicen-self", catalog: String::new(), page: String::new(), resources: "/ColorSpace << /C9 150 0 R >>".into(),
+            objs: vec![(150, format!("[/DeviceN [/A] 150 0 R {}]", f2).into_bytes())] },
+        Kit { name: "appearance-self", catalog: String::new(), page: "/Annots [160 0 R]".into(), resources: String::new(),
+            objs: vec![(160, b"<< /Type /Annot /Subtype /Widget /Rect [0 0 1 1] /P 3 0 R /AP << /N 161 0 R >> >>".to_vec()), (161, b"<< /On 161 0 R >>".to_vec())] },
+        Kit { name: "outline-ring", catalog: "/Outlines << /Type /Outlines /First 180 0 R /Last 180 0 R /Count 2147483647 >>".into(), page: String::new(), resources: String::new(),
+            objs: vec![(180, b"<< /Title (t) /Next 180 0 R /Prev 180 0 R /First 180 0 R /Count -1 >>".to_vec())] },
+        Kit { name: "hostile-function", catalog: String::new(), page: String::new(), resources: "/XObject << /X9 192 0 R >> /Pattern << /P9 191 0 R >>".into(),
+            objs: vec![(190, stream_body("/FunctionType 4 /Domain [0.0 1.0] /Range [0.0 1.0]", b"{ 5 1 roll }")), (191, b"191 0 R".to_vec()),
+                       (192, stream_body("/Type /XObject /Subtype /Image /Width 1 /Height 1 /BitsPerComponent 8 /ColorSpace [/Separation /S /DeviceRGB 190 0 R]", &[7u8]))] },
+    ];
+    // a chain of 70 composite fonts (deeper than the nesting limit)
+    let mut chain = vec![];
+    for i in 0..70u64 {
+        let me = 200 + i;
+        chain.push((me, if i == 69 { b"<< /Type /Font /Subtype /Type1 /BaseFont /Leaf >>".to_vec() } else { format!("<< /Type /Font /Subtype /Type0 /BaseFont /C /Encoding /Identity-H /DescendantFonts [{}] >>", rf(me + 1)).into_bytes() }));
+    }
+    v.push(Kit { name: "deep-font-chain", catalog: String::new(), page: String::new(), resources: "/ExtGState << /G9 << /Font [200 0 R 1.0] >> >>".into(), objs: chain });
+    v
+}
+
+/// two kits in one document
+pub fn combo(a: &Kit, b: &Kit, v: Variant) -> Planted {
+    let mut objs: Vec<(u64, Body)> = vec![
+        (1, Body::Plain(format!("<< /Type /Catalog /Pages 2 0 R {} {} >>", a.catalog, b.catalog))),
+        (2, Body::Plain("<< /Type /Pages /Kids [3 0 R] /Count 1 /MediaBox [0 0 10 10] >>".into())),
+        (3, Body::Plain(format!("<< /Type /Page /Parent 2 0 R /Resources 4 0 R /Contents 5 0 R {} {} >>", a.page, b.page))),
+        (4, Body::Plain(format!("<< {} {} >>", a.resources, b.resources))),
+        (5, Body::Stream(String::new(), None, CONTENT.to_vec())),
+    ];
+    for k in [a, b] {
+        for (id, body) in &k.objs {
+            // plain bodies may be stored compressed; streams may not
+            if body.windows(6).any(|w| w == b"stream") {
+                objs.push((*id, Body::Raw(body.clone())));
+            } else {
+                objs.push((*id, Body::Plain(String::from_utf8_lossy(body).replace('{', "{{").replace('}', "}}"))));
+            }
+        }
+    }
+    // (the bodies contain no slot placeholders: the doubled braces above are undone here)
+    for o in objs.iter_mut() {
+        if let Body::Plain(t) = &mut o.1 {
+            *t = t.replace("{{", "{").replace("}}", "}");
+        }
+    }
+    let f = Frag { name: "combo", objs, slots: vec![], trailer: "/Root 1 0 R".into() };
+    let mut p = f.instantiate_as(&[], v);
+    p.desc = format!("combo[{} + {}]|prefix={}|compressed={}", a.name, b.name, v.prefix, v.compressed);
+    p
+}
+
 // ---------------------------------------------------------------------------------------------------
 // documents that need their own layout (cross-reference streams, object streams, /Prev)
 
 pub struct RawDoc {
     pub out: Vec<u8>,
+    /// position of the header: every offset written into the file is relative to it
+    pub base: usize,
 }
 impl RawDoc {
     pub fn new() -> RawDoc {
-        RawDoc { out: b"%PDF-1.7\n%\xe2\xe3\xcf\xd3\n".to_vec() }
+        RawDoc::with_prefix(0)
     }
+    pub fn with_prefix(prefix: usize) -> RawDoc {
+        let mut out = junk(prefix);
+        out.extend_from_slice(b"%PDF-1.7\n%\xe2\xe3\xcf\xd3\n");
+        RawDoc { out, base: prefix }
+    }
+    /// header-relative position of the next byte
     pub fn pos(&self) -> usize {
-        self.out.len()
+        self.out.len() - self.base
     }
     pub fn obj(&mut self, id: u64, body: &[u8]) -> usize {
         let p = self.pos();
@@ -784,7 +962,11 @@ fn basic_three(d: &mut RawDoc) -> Vec<(u64, usize)> {
 /// cross-reference stream with arbitrary /W, /Index, /Size texts. `rows`: (type, f1, f2) written with the
 /// *honest* widths `hw`; the dictionary may lie.
 pub fn xref_stream_doc(w: [&str; 3], index: Option<&str>, size: &str, hw: [usize; 3], extra_rows: usize, prev: Option<&str>) -> Vec<u8> {
-    let mut d = RawDoc::new();
+    xref_stream_doc_at(0, w, index, size, hw, extra_rows, prev)
+}
+
+pub fn xref_stream_doc_at(prefix: usize, w: [&str; 3], index: Option<&str>, size: &str, hw: [usize; 3], extra_rows: usize, prev: Option<&str>) -> Vec<u8> {
+    let mut d = RawDoc::with_prefix(prefix);
     let offs = basic_three(&mut d);
     let xpos = d.pos();
     let mut rows: Vec<(u64, u64, u64)> = vec![(0, 0, 65535)];
@@ -809,6 +991,70 @@ pub fn xref_stream_doc(w: [&str; 3], index: Option<&str>, size: &str, hw: [usize
     d.out
 }
 
+/// hostile *entries*: objects 1..3 plus a content stream 5; the table (classic or stream, 8-byte offset
+/// field) gives object `victim` the offset `off` (header-relative, as every offset in a file) and, for
+/// `startxref`, `sx` instead of the true position (None: true position).
+#[derive(Clone, Debug)]
+pub enum Off {
+    /// the true (header-relative) offset of this object
+    Of(u64),
+    /// the true offset of this object plus a signed distance
+    OfPlus(u64, i64),
+    Lit(u64),
+}
+
+pub fn xref_offsets_doc(prefix: usize, stream_table: bool, victim: u64, off: &Off, sx: Option<&str>) -> Vec<u8> {
+    let mut d = RawDoc::with_prefix(prefix);
+    let mut offs = basic_three(&mut d);
+    offs[2].1 = {
+        // the page gets contents so that a stream range depends on the offsets too
+        let p = d.obj(3, b"<< /Type /Page /Parent 2 0 R /Resources << >> /Contents 5 0 R >>");
+        p
+    };
+    offs.push((5, d.obj(5, &stream_body("", b"q Q BT ET"))));
+    let xpos = d.pos();
+    let mut rows: Vec<(u64, u64)> = vec![(0, 0); 7];
+    for (id, o) in &offs {
+        rows[*id as usize] = (1, *o as u64);
+    }
+    rows[4] = (0, 0);
+    if victim < 6 {
+        let truth = |id: u64| offs.iter().find(|o| o.0 == id).map(|o| o.1 as u64).unwrap_or(0);
+        let off = match off {
+            Off::Of(id) => truth(*id),
+            Off::OfPlus(id, d) => (truth(*id) as i64 + d).max(0) as u64,
+            Off::Lit(v) => *v,
+        };
+        rows[victim as usize] = (1, off);
+    }
+    if stream_table {
+        rows[6] = (1, xpos as u64);
+        let mut data = vec![];
+        for (i, (t, a)) in rows.iter().enumerate() {
+            data.push(if i == 0 { 0 } else { *t as u8 });
+            data.extend_from_slice(&a.to_be_bytes());
+            data.extend_from_slice(&(if i == 0 { 65535u16 } else { 0 }).to_be_bytes());
+        }
+        d.obj(6, &stream_body("/Type /XRef /Size 7 /W [1 8 2] /Root 1 0 R", &data));
+    } else {
+        d.text("xref\n0 6\n");
+        for (i, (t, a)) in rows.iter().take(6).enumerate() {
+            if i == 0 || *t == 0 {
+                d.text("0000000000 65535 f \n");
+            } else {
+                // a classic entry has ten digits; larger numbers are written as they are (the reader takes tokens)
+                d.text(&format!("{:010} 00000 n \n", a));
+            }
+        }
+        d.text("trailer\n<< /Size 6 /Root 1 0 R >>\n");
+    }
+    match sx {
+        None => d.end(&xpos.to_string()),
+        Some(t) => d.end(&t.replace("@x", &xpos.to_string()).replace("@X", &(xpos + prefix).to_string())),
+    }
+    d.out
+}
+
 /// object streams: members, N, First, offsets as texts; cross-reference entries may put an object
 /// stream inside itself or inside another one
 pub struct ObjStmSpec {
@@ -824,7 +1070,11 @@ pub struct ObjStmSpec {
 /// indices 0, 1; `stm10_in` / `stm11_in`: Some((stream, index)) puts the xref entry of the object stream
 /// itself into a stream (instead of its file offset).
 pub fn objstm_doc(s10: &ObjStmSpec, s11: Option<&ObjStmSpec>, members: &[(u64, u64, u64)], stm10_in: Option<(u64, u64)>, stm11_in: Option<(u64, u64)>) -> Vec<u8> {
-    let mut d = RawDoc::new();
+    objstm_doc_at(0, s10, s11, members, stm10_in, stm11_in)
+}
+
+pub fn objstm_doc_at(prefix: usize, s10: &ObjStmSpec, s11: Option<&ObjStmSpec>, members: &[(u64, u64, u64)], stm10_in: Option<(u64, u64)>, stm11_in: Option<(u64, u64)>) -> Vec<u8> {
+    let mut d = RawDoc::with_prefix(prefix);
     let offs = basic_three(&mut d);
     let mk = |s: &ObjStmSpec| -> Vec<u8> {
         let mut data = s.header.clone().into_bytes();
@@ -861,53 +1111,99 @@ pub fn objstm_doc(s10: &ObjStmSpec, s11: Option<&ObjStmSpec>, members: &[(u64, u
     d.out
 }
 
-/// classic tables chained by /Prev: `prevs[i]` is the /Prev text of section i (None: absent); the
-/// placeholder `@k` is replaced by the offset of section k. Section 0 is the one `startxref` names.
-pub fn prev_doc(prevs: &[Option<String>], stream_sections: bool) -> Vec<u8> {
-    let mut d = RawDoc::new();
+/// a /Prev value (or `startxref`): all numbers written into the file are header-relative
+#[derive(Clone, Debug, PartialEq)]
+pub enum Pv {
+    None,
+    /// the position of section j
+    Sec(usize),
+    /// the position of section j plus a signed distance (e.g. the prefix length: a wrongly based offset)
+    SecPlus(usize, i64),
+    /// this text
+    Lit(String),
+}
+
+pub struct PrevDoc {
+    pub bytes: Vec<u8>,
+    pub prefix: usize,
+    /// header-relative position of every section (section 0 is the newest one)
+    pub sec_pos: Vec<usize>,
+    /// the number written for every /Prev (None: absent or not a number)
+    pub prev_val: Vec<Option<u64>>,
+    pub startxref_val: Option<u64>,
+}
+
+pub const SECTION_SPACING: usize = 320;
+
+/// Cross-reference sections (classic tables or streams) chained by /Prev behind `prefix` junk bytes. The
+/// sections start `SECTION_SPACING` bytes apart, so that a prefix of that length (or twice that) makes an
+/// offset taken in the wrong coordinate system land exactly on another section.
+pub fn prev_doc_at(prefix: usize, prevs: &[Pv], stream_sections: bool, startxref: &Pv) -> PrevDoc {
+    let mut d = RawDoc::with_prefix(prefix);
     let offs = basic_three(&mut d);
     let n = prevs.len();
-    // offsets are not known before writing: two passes with fixed-width numbers
-    let mut sec_pos = vec![0usize; n];
-    let mut out = vec![];
-    for pass in 0..2 {
-        let mut dd = RawDoc { out: d.out.clone() };
-        for k in (0..n).rev() {
-            sec_pos[k] = dd.pos();
-            let pv = match &prevs[k] {
-                None => String::new(),
-                Some(t) => {
-                    let mut t = t.clone();
-                    for j in 0..n {
-                        t = t.replace(&format!("@{}", j), &format!("{:010}", if pass == 0 { 0 } else { sec_pos[j] }));
-                    }
-                    format!("/Prev {}", t)
-                }
-            };
-            if stream_sections {
-                let id = 30 + k as u64;
-                let mut rows: Vec<(u64, u64, u64)> = vec![(0, 0, 65535)];
-                for (_, o) in &offs {
-                    rows.push((1, *o as u64, 0));
-                }
-                let mut data = vec![];
-                for (t, a, b) in rows {
-                    data.push(t as u8);
-                    data.extend_from_slice(&a.to_be_bytes()[4..]);
-                    data.extend_from_slice(&b.to_be_bytes()[6..]);
-                }
-                let dict = format!("/Type /XRef /Size 40 /W [1 4 2] /Index [0 4] {} /Root 1 0 R", pv);
-                dd.obj(id, &stream_body(&dict, &data));
-            } else {
-                dd.text("xref\n0 4\n0000000000 65535 f \n");
-                for (_, o) in &offs {
-                    dd.text(&format!("{:010} 00000 n \n", o));
-                }
-                dd.text(&format!("trailer\n<< /Size 4 /Root 1 0 R {} >>\n", pv));
-            }
+    // the gaps are filled with a junk token, not with white space: a reader skips white space, which
+    // would make every position of a gap an alias of the section behind it
+    let pad_to = |d: &mut RawDoc, target: usize| {
+        while d.pos() + 1 < target {
+            d.text("j");
         }
-        dd.end(&sec_pos[0].to_string());
-        out = dd.out;
+        if d.pos() < target {
+            d.text("\n");
+        }
+    };
+    let origin = (d.pos() + 2 + SECTION_SPACING - 1) / SECTION_SPACING * SECTION_SPACING;
+    pad_to(&mut d, origin);
+    // written oldest first: section n-1 at the origin, section 0 last
+    let sec_pos: Vec<usize> = (0..n).map(|k| origin + (n - 1 - k) * SECTION_SPACING).collect();
+    let value = |p: &Pv| -> (String, Option<u64>) {
+        match p {
+            Pv::None => (String::new(), None),
+            Pv::Sec(j) => (sec_pos[*j].to_string(), Some(sec_pos[*j] as u64)),
+            Pv::SecPlus(j, delta) => { let v = (sec_pos[*j] as i64 + delta).max(0) as u64; (v.to_string(), Some(v)) }
+            Pv::Lit(t) => (t.clone(), t.parse::<u64>().ok()),
+        }
+    };
+    let mut prev_val = vec![None; n];
+    for k in (0..n).rev() {
+        pad_to(&mut d, sec_pos[k]);
+        assert_eq!(d.pos(), sec_pos[k], "section longer than the spacing");
+        let (t, v) = value(&prevs[k]);
+        prev_val[k] = v;
+        let pv = if prevs[k] == Pv::None { String::new() } else { format!("/Prev {}", t) };
+        if stream_sections {
+            // one-digit object numbers: "30 0 obj" read from its second byte is the valid "0 0 obj"
+            let id = 4 + (k as u64 % 6);
+            let mut rows: Vec<(u64, u64, u64)> = vec![(0, 0, 65535)];
+            for (_, o) in &offs {
+                rows.push((1, *o as u64, 0));
+            }
+            let mut data = vec![];
+            for (t, a, b) in rows {
+                data.push(t as u8);
+                data.extend_from_slice(&a.to_be_bytes()[4..]);
+                data.extend_from_slice(&b.to_be_bytes()[6..]);
+            }
+            let dict = format!("/Type /XRef /Size 40 /W [1 4 2] /Index [0 4] {} /Root 1 0 R", pv);
+            d.obj(id, &stream_body(&dict, &data));
+        } else {
+            d.text("xref\n0 4\n0000000000 65535 f \n");
+            for (_, o) in &offs {
+                d.text(&format!("{:010} 00000 n \n", o));
+            }
+            d.text(&format!("trailer\n<< /Size 4 /Root 1 0 R {} >>\n", pv));
+        }
     }
-    out
+    let (t, v) = value(startxref);
+    d.end(&t);
+    PrevDoc { bytes: d.out, prefix, sec_pos, prev_val, startxref_val: v }
+}
+
+/// the former interface: `prevs[i]` is the /Prev text of section i, `@k` stands for the position of section k
+pub fn prev_doc(prevs: &[Option<String>], stream_sections: bool) -> Vec<u8> {
+    let pv: Vec<Pv> = prevs.iter().map(|p| match p {
+        None => Pv::None,
+        Some(t) => match t.strip_prefix('@').and_then(|k| k.parse::<usize>().ok()) { Some(k) => Pv::Sec(k), None => Pv::Lit(t.clone()) },
+    }).collect();
+    prev_doc_at(0, &pv, stream_sections, &Pv::Sec(0)).bytes
 }
